@@ -2,8 +2,8 @@
    (carrier F with the operations of an `fops` record satisfying ring_theory; instances: Z, R),
    for every order / shape / rank / weights / factors, with no size bound. *)
 From Coq Require Import List Arith ZArith Reals Bool Ring Lia Lra.
-From TLV Require Import Base.Shape Base.PyList Base.Tensor Base.BigSum Base.Ops Model.Errors
-     Proofs.ErrorsProofs Proofs.ErrorsSkeleton Proofs.ErrorsSkeletonCP Proofs.ErrorsP2 Proofs.ErrorsTR Proofs.ErrorsReal Proofs.ErrorsLoops.
+From TLV Require Import Base.Shape Base.PyList Base.Tensor Base.BigSum Base.Ops Model.Errors Model.ErrorsR
+     Proofs.ErrorsProofs Proofs.ErrorsSkeleton Proofs.ErrorsSkeletonCP Proofs.ErrorsP2 Proofs.ErrorsTR Proofs.ErrorsReal Proofs.ErrorsLoops Proofs.ErrorsNormalizeR.
 Import ListNotations.
 
 (* squared-error expansion over an arbitrary index space:  sum (X - Y)^2 = sum X^2 + sum Y^2 - 2 sum X Y *)
@@ -99,7 +99,7 @@ Theorem C06_cp_rescaling_preserves_tensor : forall (F : Type) (Op : fops F),
   ring_theory (f0 Op) (f1 Op) (fadd Op) (fmul Op) (fsub Op) (fopp Op) (@eq F) ->
   forall (s : list nat) (R : nat) (w w' : nat -> F) (cols cols' : nat -> list (nat -> F)) (ds : nat -> list F),
   (forall r, r < R -> length (cols r) = length s) ->
-  (forall r, r < R -> scaled Op (cols r) (cols' r) (ds r)) ->
+  (forall r, r < R -> scaled Op s (cols r) (cols' r) (ds r)) ->
   (forall r, r < R -> w' r = fmul Op (w r) (prodF Op (ds r))) ->
   forall idx, inb s idx -> cp_entry Op R w' cols' idx = cp_entry Op R w cols idx.
 Proof. exact @cp_entry_rescale. Qed.
@@ -237,6 +237,11 @@ Theorem C06_parafac2_reported_value : forall (I K Rk : nat) (J : nat -> nat) (X 
   = rel_error (p2_err2_true Rops I K Rk J X P A Bm C) (p2_normX Rops I K J X).
 Proof. exact parafac2_reported_value. Qed.
 Print Assumptions C06_parafac2_reported_value.
+(* CMTF, documented squared form: norm(X - cp)**2 + norm(Y - cp_Y)**2 is the sum of the two squared residuals *)
+Theorem C06_cmtf_reported_value : forall (sX sY : list nat) (X LX Y LY : list nat -> R),
+  cmtf_reported sX sY X LX Y LY = (dist2 Rops sX X LX + dist2 Rops sY Y LY)%R.
+Proof. exact cmtf_reported_value. Qed.
+Print Assumptions C06_cmtf_reported_value.
 (* the square of the relative error is the ratio the correspondence compares, and the value is never negative *)
 Theorem C06_rel_error_square : forall d2 nx : R, (0 <= d2)%R -> (0 < nx)%R -> (rel_error d2 nx * rel_error d2 nx)%R = (d2 / nx)%R.
 Proof. exact rel_error_sq. Qed.
@@ -249,6 +254,24 @@ Print Assumptions C06_abs_guard_total.
 Theorem C06_unguarded_sqrt_refuted : exists q delta : R, (0 <= q)%R /\ (Rabs delta <= 1 / 1000000)%R /\ ~ sqrt_arg_ok (q + delta).
 Proof. exact unguarded_sqrt_refuted. Qed.
 Print Assumptions C06_unguarded_sqrt_refuted.
+
+(* cp_normalize transcribed over the reals (column norms, zero norms replaced by 1, weights multiplied by the norms) IS a rescaling,
+   zero columns included; hence the composed loop theorem holds with the REAL normalisation and no hypothesis about it *)
+Theorem C06_cp_normalize_is_rescaling : forall (s : list nat) (Rk : nat) (st : blocks (@blk R)),
+  rescaling Rops s Rk st (cp_normalize_R s st).
+Proof. exact cp_normalize_is_rescaling. Qed.
+Print Assumptions C06_cp_normalize_is_rescaling.
+Theorem C06_cp_loop_reports_true_errors_with_cp_normalize : forall (s : list nat) (X : list nat -> R) (Rk : nat) (weighted_mttkrp : bool)
+  (Orc : oracle (@blk R)) (C : config),
+  (forall st, normalized Orc st = cp_normalize_R s st) ->
+  well_formed C -> last (modes C) 0 < length s ->
+  forall (n : nat) (init : blocks blk),
+  let l := run (cp_fast Rops s X Rk weighted_mttkrp) (cp_err2 Rops s X Rk) Orc C n init in
+  Forall (good_event blk R R (cp_err2 Rops s X Rk) (fun e => e)) (trace l) /\
+  last_report_ok blk R R (cp_err2 Rops s X Rk) (fun e => e) l /\
+  last (trace l) EBreak = EReturn (cur l).
+Proof. exact cp_loop_reports_true_errors_R. Qed.
+Print Assumptions C06_cp_loop_reports_true_errors_with_cp_normalize.
 
 (* ---- loops that compute one explicit residual per iteration (CMTF since d036ea5, the non-negative Tucker variants, HOOI, randomised
    CP since 28121fa): for every oracle (updates, convergence stops, callback stops) the last recorded value is the error of the returned iterate,
@@ -304,7 +327,7 @@ Example C06_cp_loop_nonvacuous :
 Proof.
   cbv zeta. split; [|split; [repeat split; discriminate | vm_compute; reflexivity]].
   intros st. exists (fun _ => [-1; 1]%Z). split; intros r Hr.
-  - cbn. repeat split; intros i; match goal with |- context [st ?a ?b ?c] => destruct (st a b c) end; reflexivity.
+  - cbn. repeat split; intros i _; match goal with |- context [st ?a ?b ?c] => destruct (st a b c) end; reflexivity.
   - unfold w_of. cbn. rewrite Z.mul_comm. cbn. reflexivity.
 Qed.
 (* PARAFAC2 identity on a concrete instance over Z: 2 slices of heights 2 and 3, rank 2, non-orthonormal projections *)
@@ -349,3 +372,7 @@ Qed.
 Example C06_explicit_loop_nonvacuous :
   s_loop (fun st : nat => st) toy_s true 5 0 0 [] = (2, [1; 2]) /\ s_loop (fun st : nat => st) toy_s false 5 0 0 [] = (2, [1]).
 Proof. exact s_loop_nonvacuous. Qed.
+
+(* the transcription of cp_normalize computes: a column (3, 4) has norm 5 *)
+Example C06_colnorm_nonvacuous : colnorm [2%nat] (fun _ i _ => match i with 0%nat => 3%R | _ => 4%R end) 0 0 = 5%R.
+Proof. exact colnorm_3_4. Qed.
